@@ -430,9 +430,6 @@ func c14ParseChecked(c *Ctx, pr *PropertyRun, entries []*ssa.Function) {
 		}
 	}
 	sort.Slice(fns, func(i, j int) bool { return fnKey(fns[i]) < fnKey(fns[j]) })
-	exempt := map[string]string{
-		"(*internal.Client).Do|mime.ParseMediaType": "on error the media type is empty, which selects the no-detail branch; the status is still reported",
-	}
 	for _, fn := range fns {
 		eachCall(fn, func(site ssa.CallInstruction) {
 			call, ok := site.(*ssa.Call)
@@ -440,11 +437,11 @@ func c14ParseChecked(c *Ctx, pr *PropertyRun, entries []*ssa.Function) {
 				return
 			}
 			name := calleeName(call.Common())
-			if !parseCalls[name] {
+			if !isParseName(p, name) {
 				return
 			}
 			r.Role("parse-call")
-			if why, ok := exempt[fnKey(fn)+"|"+name]; ok {
+			if ok, why := harmlessOnError(call); ok {
 				r.Note("exempt %s in %s: %s", name, fnKey(fn), why)
 				return
 			}
